@@ -405,14 +405,10 @@ def usedStr (m : MacroDef) (i : Nat) : Bool := (elems m m.body).any fun e =>
   | .str j _ => j = i
   | _ => false
 
-/-- does the token list contain the name of a function-like macro followed by `(`? -/
-def hasInvocation (tbl : List MacroDef) : List HTok → Bool
-  | [] => false
-  | [_] => false
-  | a :: b :: r =>
-    (a.tok.kind = .TIDENT && b.tok.kind = .TLPAREN &&
-      (match tbl.find? (·.name = a.tok.lit.getD []) with | some m => m.func | none => false))
-    || hasInvocation tbl (b :: r)
+/-- does the token list contain the name of a macro?  (then its complete replacement may contain
+an invocation whose parentheses are tokens of the list) -/
+def hasInvocation (tbl : List MacroDef) (l : List HTok) : Bool :=
+  l.any fun a => a.tok.kind = .TIDENT && (tbl.find? (·.name = a.tok.lit.getD [])).isSome
 
 /-- a parameter in a place preceded by white space whose argument is replaced by nothing -/
 def emptySpaced (full : Nat → List HTok) (es : List Elem) : Bool := es.any fun e =>
